@@ -123,6 +123,8 @@ class Fn:
             return self.compare(node, env, binds)
         if isinstance(node, ast.Subscript):
             return self.subscript(node, env, binds)
+        if isinstance(node, ast.Attribute) and _d(node) == _d(ast.parse("np.finfo(np.float64).eps", mode="eval").body):
+            return "(1 # 4503599627370496)", FLOAT      # 2^-52
         if isinstance(node, ast.Attribute):
             t, ty = self.expr(node.value, env, binds)
             if node.attr == "step" and ty == IDL:
@@ -553,8 +555,18 @@ class Fn:
             if tx != ARR or tp != INT:
                 raise TranslateError("%s: rfft arguments (%s, %s)" % (self.name, tx, tp))
             return "(py_fft_autocorr %s %s)" % (x, pp), ARR
-        if dotted == "np.concatenate" and len(node.args) == 1 and isinstance(node.args[0], ast.List) and node.args[0].elts:
-            parts = [self.expr(e, env, binds) for e in node.args[0].elts]
+        if dotted == "np.cumsum" and len(node.args) == 1:
+            t, ty = self.expr(node.args[0], env, binds)
+            if ty != ARR:
+                raise TranslateError("%s: np.cumsum of %s" % (self.name, ty))
+            return "(arr_cumsum %s)" % t, ARR
+        if dotted == "np.concatenate" and len(node.args) == 1 and isinstance(node.args[0], (ast.List, ast.Tuple)) and node.args[0].elts:
+            parts = []
+            for e in node.args[0].elts:
+                if isinstance(e, ast.List) and e.elts and all(isinstance(c, ast.Constant) and isinstance(c.value, (int, float)) and not isinstance(c.value, bool) for c in e.elts):
+                    parts.append(("[" + "; ".join(self.coerce(*self.expr(c, env, binds), FLOAT) for c in e.elts) + "]", ARR))
+                else:
+                    parts.append(self.expr(e, env, binds))
             if any(ty != ARR for _, ty in parts):
                 raise TranslateError("%s: np.concatenate of %s" % (self.name, [ty for _, ty in parts]))
             return "(" + " ++ ".join(t for t, _ in parts) + ")", ARR
@@ -763,7 +775,7 @@ class Fn:
                 env2[tgt.id] = ty
                 return self.seq(b, "let %s := %s in %s" % (self.v(tgt.id), t, nxt(env2)))
             if isinstance(tgt, ast.Subscript) and isinstance(tgt.value, ast.Name) and env.get(tgt.value.id) == ARR \
-                    and not isinstance(tgt.slice, ast.Slice):
+                    and not isinstance(tgt.slice, (ast.Slice, ast.Compare)):
                 i, ti = self.expr(tgt.slice, env, b)
                 t, ty = self.expr(s.value, env, b)
                 if ti != INT:
@@ -781,6 +793,18 @@ class Fn:
                     raise TranslateError("%s: slice assignment with (%s, %s, %s)" % (self.name, lo[1], hi[1], ty))
                 b.append((a, "py_slice_set %s %s %s %s" % (a, lo[0], hi[0], t)))
                 return self.seq(b, nxt(env))
+            if isinstance(tgt, ast.Subscript) and isinstance(tgt.value, ast.Name) and env.get(tgt.value.id) == ARR \
+                    and isinstance(tgt.slice, ast.Compare) and len(tgt.slice.ops) == 1 and isinstance(tgt.slice.left, ast.Name) \
+                    and tgt.slice.left.id == tgt.value.id and isinstance(tgt.slice.ops[0], (ast.Lt, ast.LtE)):
+                # a[a < c] = v : every entry below (or equal to) c is replaced by v
+                c, tc = self.expr(tgt.slice.comparators[0], env, b)
+                t, ty = self.expr(s.value, env, b)
+                if tc not in (INT, FLOAT) or ty not in (INT, FLOAT):
+                    raise TranslateError("%s: boolean-mask store with (%s, %s)" % (self.name, tc, ty))
+                cmpf = "Qltb" if isinstance(tgt.slice.ops[0], ast.Lt) else "Qleb"
+                a = self.v(tgt.value.id)
+                return self.seq(b, "let %s := (arr_mask_set (fun x_ => %s x_ %s) %s %s) in %s"
+                                % (a, cmpf, self.coerce(c, tc, FLOAT), self.coerce(t, ty, FLOAT), a, nxt(env)))
             if isinstance(tgt, ast.Subscript) and _d(tgt.value) in self.stores and not isinstance(tgt.slice, ast.Slice):
                 dn = self.stores[_d(tgt.value)]
                 i, ti = self.expr(tgt.slice, env, b)
@@ -810,6 +834,13 @@ class Fn:
                 if lo[1] != INT or hi[1] != INT or ty != ARR:
                     raise TranslateError("%s: slice += with (%s, %s, %s)" % (self.name, lo[1], hi[1], ty))
                 b.append((a, "py_slice_add %s %s %s %s" % (a, lo[0], hi[0], t)))
+                return self.seq(b, nxt(env))
+            if isinstance(s.op, ast.Div) and isinstance(tgt, ast.Name) and env.get(tgt.id) == ARR:
+                t, ty = self.expr(s.value, env, b)
+                if ty != ARR:
+                    raise TranslateError("%s: /= of %s to an array" % (self.name, ty))
+                a = self.v(tgt.id)
+                b.append((a, "py_arr_div2 %s %s" % (a, t)))
                 return self.seq(b, nxt(env))
             if isinstance(s.op, ast.Add) and isinstance(tgt, ast.Name) and env.get(tgt.id) == INT:
                 t, ty = self.expr(s.value, env, b)
@@ -986,6 +1017,60 @@ def frag_drho(fn):
     return [body[0], ast.Return(value=v.args[0])]
 
 
+class _Rename(ast.NodeTransformer):
+    """Replace whole sub-expressions (given as source text) by plain names."""
+    def __init__(self, table):
+        self.table = {_d(ast.parse(k, mode="eval").body): v for k, v in table.items()}
+
+    def generic_visit(self, node):
+        key = _d(node).replace("Store()", "Load()") if isinstance(node, ast.expr) else None
+        if key in self.table:
+            return ast.copy_location(ast.Name(id=self.table[key], ctx=getattr(node, "ctx", ast.Load())), node)
+        return super().generic_visit(node)
+
+
+def _ensemble_loop(fn):
+    loops = [x for x in fn.body if isinstance(x, ast.For) and isinstance(x.iter, ast.Call) and _d(x.iter) ==
+             _d(ast.parse("enumerate(self.mc_names)", mode="eval").body)]
+    if len(loops) != 1:
+        raise TranslateError("gamma_method: the loop over enumerate(self.mc_names) was not found exactly once")
+    return loops[0]
+
+
+def _pick(loop, sources, what):
+    import copy
+    want = [_d(ast.parse(src).body[0]) for src in sources]
+    body = [_d(st) for st in loop.body]
+    pos = []
+    for w in want:
+        if body.count(w) != 1:
+            raise TranslateError("gamma_method: statement of %s not found exactly once: %s" % (what, w[:80]))
+        pos.append(body.index(w))
+    if pos != sorted(pos):
+        raise TranslateError("gamma_method: the statements of %s are not in the expected order" % what)
+    return [copy.deepcopy(loop.body[i]) for i in pos]
+
+
+def frag_gamma_norm(fn):
+    """gamma_div[gamma_div < 1] = 1.0 ; e_gamma[e_name] /= gamma_div[:w_max]   (-> the normalised autocorrelation)"""
+    st = _pick(_ensemble_loop(fn), ["gamma_div[gamma_div < 1] = 1.0", "e_gamma[e_name] /= gamma_div[:w_max]"], "the pair-count normalisation")
+    ren = _Rename({"e_gamma[e_name]": "gamma"})
+    return [ast.fix_missing_locations(ren.visit(x)) for x in st] + [ast.Return(value=ast.Name(id="gamma", ctx=ast.Load()))]
+
+
+def frag_rho(fn):
+    st = _pick(_ensemble_loop(fn), ["self.e_rho[e_name] = e_gamma[e_name][:w_max] / e_gamma[e_name][0]"], "rho")
+    ren = _Rename({"e_gamma[e_name]": "gamma", "self.e_rho[e_name]": "rho"})
+    return [ast.fix_missing_locations(ren.visit(x)) for x in st] + [ast.Return(value=ast.Name(id="rho", ctx=ast.Load()))]
+
+
+def frag_n_tauint(fn):
+    st = _pick(_ensemble_loop(fn), ["self.e_n_tauint[e_name] = np.cumsum(np.concatenate(([0.5], self.e_rho[e_name][1:])))",
+                                    "self.e_n_tauint[e_name][self.e_n_tauint[e_name] <= 0.5] = 0.5 + np.finfo(np.float64).eps"], "the cumulative tau_int")
+    ren = _Rename({"self.e_rho[e_name]": "rho", "self.e_n_tauint[e_name]": "nt"})
+    return [ast.fix_missing_locations(ren.visit(x)) for x in st] + [ast.Return(value=ast.Name(id="nt", ctx=ast.Load()))]
+
+
 def frag_window_search(fn):
     """Obs.gamma_method: the automatic-windowing loop `for n in range(1, w_max): if g_w[n - 1] < 0 or n >= w_max - 1: ...; break`.
     The fragment is the search itself: which n the loop stops at (its body up to `break` is the bookkeeping of that n)."""
@@ -1097,6 +1182,12 @@ SIGS = [
     dict(coq="gamma_method_window_search", py="Obs.gamma_method", fragment=frag_window_search, params=[], ret=INT,
          extra_params=[("v_gneg", "(Z -> bool)"), ("v_w_max", INT)], env={"w_max": INT},
          aliases={"g_w[n - 1] < 0": ("(v_gneg (v_n - 1))", BOOL)}),
+    dict(coq="gamma_method_normalise", py="Obs.gamma_method", fragment=frag_gamma_norm, params=[], ret=ARR,
+         extra_params=[("v_gamma", ARR), ("v_gamma_div", ARR), ("v_w_max", INT)], env={"gamma": ARR, "gamma_div": ARR, "w_max": INT}),
+    dict(coq="gamma_method_rho", py="Obs.gamma_method", fragment=frag_rho, params=[], ret=ARR,
+         extra_params=[("v_gamma", ARR), ("v_w_max", INT)], env={"gamma": ARR, "w_max": INT}),
+    dict(coq="gamma_method_n_tauint", py="Obs.gamma_method", fragment=frag_n_tauint, params=[], ret=ARR,
+         extra_params=[("v_rho", ARR)], env={"rho": ARR}),
     dict(coq="_reduce_deltas", py="_reduce_deltas", params=[("deltas", ARR), ("idx_old", IDL), ("idx_new", IDL)], ret=ARR),
     dict(coq="covariance_calc_gamma", py="_covariance_element.calc_gamma", needs=["_reduce_deltas"],
          params=[("deltas1", ARR), ("deltas2", ARR), ("idx1", IDL), ("idx2", IDL), ("new_idx", IDL)], ret=FLOAT),
